@@ -395,6 +395,17 @@ def curated_calls(obj, rng, nodes_by_type):
             out.append({"t": "call", "name": "convolve_mapping_matrix", "kw": {"mapping_matrix": {"$arr": [prng.fhex(rng.uniform(0, 1)) for _ in range(npix * cols)], "shape": [npix, cols]}}})
     if tn in ("Mesh2DRectangular", "Mesh2DDelaunay"):
         out.append({"t": "call", "name": "interpolation_grid_from", "kw": {"shape_native": _T(rng.randrange(2, 6), rng.randrange(2, 6))}})
+    if tn in ("Mesh2DRectangular", "Mesh2DDelaunay", "Mesh2DVoronoi"):
+        # few distinct (shape, extent) arguments, so that the same question recurs on a mesh, on its parent and on meshes derived from it
+        try:
+            n = int(obj.pixels)
+        except Exception:  # noqa: BLE001
+            n = 0
+        if n:
+            kw = {"values": {"$arr": [prng.fhex(float((7 * i) % 5) + 0.25 * i) for i in range(n)]}, "shape_native": rng.choice([_T(3, 3), _T(4, 5)])}
+            if rng.random() < 0.4:
+                kw["extent"] = _T(-1.0, 1.5, -1.25, 1.0)
+            out.append({"t": "call", "name": "interpolated_array_from", "kw": kw})
     if tn in ("Array2D", "Kernel2D"):
         # the non-seeded preprocessing helpers: pure functions of their arguments
         out.append({"t": "fn", "name": "preprocess.noise_map_via_weight_map_from", "kw": {"weight_map": {"$abs": {"$self": True}}}})
@@ -523,6 +534,13 @@ def derivations(obj, rng, nodes_by_type):
         if n >= 2 and tn in ("Visibilities", "VisibilitiesNoiseMap", "Grid2DIrregular", "ArrayIrregular", "Array1D"):
             a = rng.randrange(0, n - 1)
             out.append({"t": "item", "key": [a, rng.randrange(a + 1, n + 1)]})
+    if tn in ("Mesh2DRectangular", "Mesh2DDelaunay", "Mesh2DVoronoi"):
+        # a mesh is a structure too: shifted / scaled / copied meshes (a source plane moved or magnified)
+        for name in ("mul", "add", "sub"):
+            out.append({"t": "op", "name": name, "other": rng.choice([2.0, 0.5, 0.3, -0.4])})
+        out.append({"t": "op", "name": "neg"})
+        out.append({"t": "copy"})
+        out.append({"t": "deepcopy"})
     if tn in ("Array2D", "Kernel2D", "Grid2D", "VectorYX2D", "Array1D", "Grid1D"):
         out.append({"t": "prop", "name": "slim"})
         out.append({"t": "prop", "name": "native"})
